@@ -99,6 +99,14 @@ def gen(rng):
         win = rng.randint(0, min(3, n - pre - mid))
         post = rng.randint(0, min(3, n - pre - mid - win)) if rng.random() < 0.5 else 0
         lim = rng.choice([1, 2, 3, 100])
+        if rng.random() < 0.4 and n >= 6:
+            # force stream pages: several state pages, then more than one page of publications during pagination
+            lim = rng.choice([1, 2])
+            pre = rng.randint(2, 3)
+            mid = rng.randint(min(lim + 2, n - pre), n - pre)
+            win = rng.randint(0, min(2, n - pre - mid))
+            post = 0
+            specs = [sp.split("@")[0] + (f"@{i}" if i < pre else (f"@{rng.randrange(9)}" if rng.random() < 0.5 else "")) for i, sp in enumerate(specs)]
     else:
         pre = rng.randint(0, n)
         win = rng.randint(0, min(3, n - pre))
